@@ -5,7 +5,9 @@ boundaries in quick, all in thorough), all names of length <= 3 over a 13-charac
 special alphabet, the empty name; (b) every node produced by every query of depth <= 2
 over the C01 segment alphabet (negative indices, reverse slices, descendants,
 duplicates) on every JSON tree with <= 4 (quick) / 5 (thorough) nodes, plus filter and
-descendant queries on documents with special names at several levels.
+descendant queries on documents with special names at several levels; (c) arrays of
+length 0..5 reached through every index and every (start, end, step) over a boundary
+alphabet (negative, beyond the length, +-(2^53-1), reverse).
 Oracle per node: following node.location from the root reaches the object that *is*
 node.value; node.path() equals R4's rendering of the location and is derivable from
 the normalized-path ABNF (R1); find(node.path(), doc) returns exactly one node with the
@@ -62,6 +64,8 @@ def shards(tier):
     for i in range(len(c01.SEGMENTS)):
         out.append({"space": "trees", "first": i, "n": n})
     out.append({"space": "deep"})
+    for ln in range(0, 6):
+        out.append({"space": "slices", "len": ln})
     return out
 
 
@@ -198,6 +202,30 @@ def run_shard(desc):
                 if res:
                     report(q, doc, res)
         sh.sample({"query": queries[1], "doc": impl.jsonable(docs[-1])}, limit=1)
+    elif sp == "slices":
+        # arrays reached through every index / slice over the boundary alphabet (negative,
+        # beyond the length, reverse): locations must be the non-negative positions
+        ln = desc["len"]
+        vals = [None, 0, 1, -1, 2, -2, 3, -3, ln, -ln, ln + 1, -ln - 1, 6, -6, 2**53 - 1, -(2**53) + 1]
+        vals = list(dict.fromkeys(vals))
+        arr = [[i] for i in range(ln)]
+        doc = {"a": arr, "b": [arr, {"c": arr}]}
+        for i in vals:
+            if i is None:
+                continue
+            for q in (f"$.a[{i}]", f"$..[{i}]", f"$.b[*][{i}]"):
+                res = check_query_doc(q, doc, set(), sh)
+                if res:
+                    report(q, doc, res)
+        for a in vals:
+            for b in vals:
+                for c in (None, 1, -1, 2, -2):
+                    t = ("" if a is None else str(a)) + ":" + ("" if b is None else str(b)) + ("" if c is None else ":" + str(c))
+                    for q in (f"$.a[{t}]", f"$..[{t}]"):
+                        res = check_query_doc(q, doc, set(), sh)
+                        if res:
+                            report(q, doc, res)
+        sh.sample({"query": "$.a[-3:]", "doc": impl.jsonable(doc)}, limit=1)
     else:
         for doc in DEEP_DOCS:
             for q in DEEP_QUERIES:
